@@ -226,10 +226,17 @@ class Sim:
                    'lsq': LeastSquares, 'da': DualAnnealing,
                    'de1': DifferentialEvolution,
                    'dew': DifferentialEvolution}[front]
-            with quiet(), warnings.catch_warnings():
-                warnings.simplefilter('ignore')
-                self.optimizers[i] = [front.split('_')[0][:2],
-                                      cls(self.problem), []]
+            try:
+                with quiet(), warnings.catch_warnings():
+                    warnings.simplefilter('ignore')
+                    self.optimizers[i] = [front.split('_')[0][:2],
+                                          cls(self.problem), []]
+            except Exception:
+                # the constructor evaluates the merit function; on a lens the
+                # previous steps left untraceable it raises - no run, no
+                # verdict
+                self.optimizers[i] = None
+                raise NotApplicable('optimiser cannot be constructed')
         return self.optimizers[i]
 
     def do_optimize(self, st):
@@ -278,6 +285,16 @@ class Sim:
                 slot[2].append(before)
             return
         slot[2].append(before)
+        # an unbounded driver may have walked a variable to astronomical
+        # values and back; positions are absolute, so the other gaps of the
+        # lens were absorbed (1e160 + 27 == 1e160) and nothing can restore
+        # them: earlier snapshots are void
+        if any(np.abs(x).max() > 1e7 for x, _ in getattr(drv, 'trace', [])
+               if np.size(x)):
+            self.probe('driver_excursion_to_astronomical_values')
+            for sl in self.optimizers:
+                if sl is not None:
+                    sl[2] = [None] * len(sl[2])
         self.stats['state_changes'] += 1
         cfg = 'S' if st['driver'] == 'stub' else 'R'
         self.probe(f'optimize_returned:{cfg}:{front}')
@@ -375,6 +392,75 @@ class Sim:
                                 f'variable {spec} ended at physical value '
                                 f'{p!r}, bounds [{lo}, {hi}]')
         # (e) pickups and solves satisfied
+        self.check_pickups_solves(key)
+
+    def do_compensate(self, st):
+        """The compensator front end of the tolerancing module: an
+        OptimizationProblem subclass that builds its own optimiser and
+        returns scipy's result."""
+        from optiland.tolerancing.compensator import CompensatorOptimizer
+        method = st.get('method', 'generic')
+        key = f'compensate:{method}'
+        comp = CompensatorOptimizer(method=method, tol=st.get('tol', 1e-5))
+        comp.operands = self.problem.operands
+        comp.variables = self.problem.variables
+        if any(v.get('min') is not None or v.get('max') is not None
+               for v in self.vspecs) and method == 'generic' and \
+                st['driver'] == 'real':
+            pass
+        x0 = self.values()
+        f0 = self.merit()
+        if f0 is None:
+            raise NotApplicable('merit function raises at the start')
+        drv = simopt.StubDriver(st['plan'], [s.get('step', 1e-3)
+                                             for s in self.vspecs],
+                                self.stats['probes']) \
+            if st['driver'] == 'stub' else \
+            simopt.RealDriver(st['seed'], self.stats['probes'])
+        self.shape.append(('compensate', method, st['driver']))
+        try:
+            with simopt.patched(drv), quiet(), warnings.catch_warnings():
+                warnings.simplefilter('ignore')
+                res = comp.run()
+        except Exception as e:
+            self.probe(f'optimizer_raised:{type(e).__name__}')
+            return
+        # no undo stack of ours is touched, but the lens moved
+        for sl in self.optimizers:
+            if sl is not None:
+                sl[2] = [None] * len(sl[2])
+        self.stats['state_changes'] += 1
+        self.probe(f'optimize_returned:{"S" if st["driver"] == "stub" else "R"}'
+                   f':compensator_{method}')
+        if not bool(getattr(res, 'success', True)):
+            self.probe('driver_reported_no_convergence')
+        rx = [float(v) for v in np.ravel(res.x)]
+        rf = float(np.ravel(res.fun)[0])
+        if not all(map(math.isfinite, rx)):
+            return
+        vals = self.values()
+        ztol = self.ztol()
+        self.stats['oracle_checks'] += 1
+        for j, (v, x) in enumerate(zip(vals, rx)):
+            tol = 1e-11 * max(1.0, abs(x))
+            if self.vspecs[j]['type'] == 'thickness':
+                tol += ztol
+            if not (abs(v - x) <= tol):
+                raise Violation('state', f'C14/{key}/state/values',
+                                f'CompensatorOptimizer.run() returned x={rx} '
+                                f'(fun={rf!r}, success='
+                                f'{getattr(res, "success", None)}) but the '
+                                f'variables read {vals}')
+        if drv.consistent(res.x, rf):
+            ss = self.merit()
+            self.stats['oracle_checks'] += 1
+            if ss is None or not (
+                    (rf >= 1e10 and (math.isnan(ss) or ss >= 1e10)) or
+                    abs(ss - rf) <= 1e-6 * abs(rf) +
+                    1e-10 * max(1.0, sentinel(f0))):
+                raise Violation('state', f'C14/{key}/state/objective',
+                                f'run() returned fun={rf!r} at x={rx}, but '
+                                f'sum_squared() on the lens is {ss!r}')
         self.check_pickups_solves(key)
 
     def check_pickups_solves(self, key):
@@ -747,6 +833,10 @@ def gen_operand(ch, m):
 
 def gen_plan(ch, nvar, n):
     plan = []
+    if ch.chance(0.3):
+        # the driver reports "not converged" (budget exhausted, ...): the
+        # contract promises a result either way
+        plan.append(['flag', 'fail'])
     for _ in range(n):
         k = ch.weighted([('rel', 7), ('repeat', 1.5), ('far', 1)], tag='pt')
         if k == 'repeat':
@@ -814,7 +904,7 @@ def run_one(prop, run_seed, run_index, cfg):
     for _ in range(ch.randint(2, cfg.get('max_hist', 7))):
         k = ch.weighted([('optimize', 5), ('undo', 2.5), ('poke', 1),
                          ('bounds', 1), ('merit', 1), ('edit', 1),
-                         ('retarget', 0.7)], tag='step')
+                         ('retarget', 0.7), ('compensate', 1.2)], tag='step')
         if k == 'optimize':
             bounded_all = all(v.get('min') is not None and
                               v.get('max') is not None for v in variables)
@@ -845,6 +935,15 @@ def run_one(prop, run_seed, run_index, cfg):
                 st['maxiter'] = ch.randint(1, 3) if front in (
                     'da', 'de1', 'dew') else ch.randint(2, 15)
                 st['tol'] = ch.pick([1e-3, 1e-6])
+            steps.append(st)
+        elif k == 'compensate':
+            st = {'op': 'compensate', 'driver': driver,
+                  'method': ch.pick(['generic', 'least_squares']),
+                  'tol': ch.pick([1e-5, 1e-3])}
+            if driver == 'stub':
+                st['plan'] = gen_plan(ch, nv, ch.randint(2, 10))
+            else:
+                st['seed'] = ch.seed32()
             steps.append(st)
         elif k == 'undo':
             steps.append({'op': 'undo', 'opt': ch.randint(0, 1)})
